@@ -17,6 +17,18 @@ pub struct DiagCase {
     /// where (fraction of the candidate insertion points)
     pub at: u16,
     pub non_ascii: bool,
+    /// 0 = single file; 1 = also imports a file with non-ASCII text; 2 = also imports a very short file
+    #[serde(default)]
+    pub helper: u8,
+}
+
+const HELPERS: [&str; 2] = ["// ── hjälpfunktioner: größer, naïve, 日本語のコメント ──\nfn zz_helper_fn() -> int = 1\n", "fn zz_h() -> int = 1\n"];
+
+fn helper_text(c: &DiagCase) -> Option<&'static str> {
+    match c.helper % 3 {
+        0 => None,
+        k => Some(HELPERS[k as usize - 1]),
+    }
 }
 
 struct Injection {
@@ -53,6 +65,9 @@ fn build(c: &DiagCase) -> (String, usize) {
     let base = print_prog(&generate(&c.tape, &fl));
     let inj = &KINDS[c.kind as usize % KINDS.len()];
     let mut src = String::new();
+    if helper_text(c).is_some() {
+        src.push_str("use zz_helper\n");
+    }
     if c.non_ascii {
         src.push_str("// héllo 日本語 😀 ✓ — non-ASCII before everything\nlet inj_s = \"日本 é 😀\"\n");
     }
@@ -102,20 +117,21 @@ impl Prop for DiagnosticRanges {
         "diagnostic_ranges"
     }
     fn rule(&self) -> &'static str {
-        "one case = a valid generated program with one injected error of 12 classes (unresolved identifier, assignment to let, break outside a loop, non-exhaustive match, redundant arm, unrecognized token, unknown named argument, type conflict, missing argument, bad escape sequence, bad escape of a multi-byte character, unexpected end of file) at a generated top-level position, optionally preceded by non-ASCII comment and string text; every diagnostic from check_lsp().errors() must name a loaded file, lie within that file, have start <= end and sit on char boundaries; for the unambiguous classes the primary range must be exactly the identifier / token / keyword, start at `match`, or lie inside the offending string literal; non-trivial = multi-byte characters precede the error site; distinct by (program, injection)"
+        "one case = a valid generated program with one injected error of 12 classes (unresolved identifier, assignment to let, break outside a loop, non-exhaustive match, redundant arm, unrecognized token, unknown named argument, type conflict, missing argument, bad escape sequence, bad escape of a multi-byte character, unexpected end of file) at a generated top-level position, optionally preceded by non-ASCII comment and string text, and in two thirds of the cases in a two-file program whose imported file (lexed after main) contains non-ASCII text or is shorter than the error's offset; every diagnostic from check_lsp().errors() must name a loaded file, lie within that file, have start <= end and sit on char boundaries; for the unambiguous classes the primary range must be exactly the identifier / token / keyword, start at `match`, or lie inside the offending string literal; non-trivial = multi-byte characters precede the error site; distinct by (program, injection)"
     }
     fn n_cases(&self, tier: Tier) -> u32 {
         tier.pick(3000, 50000)
     }
     fn strategy(&self, _tier: Tier, _f: &Findings) -> BoxedStrategy<Self::Case> {
-        (tape_strategy(250), 0u8..KINDS.len() as u8, any::<u16>(), any::<bool>()).prop_map(|(tape, kind, at, non_ascii)| DiagCase { tape, kind, at, non_ascii }).boxed()
+        (tape_strategy(250), 0u8..KINDS.len() as u8, any::<u16>(), any::<bool>(), 0u8..3).prop_map(|(tape, kind, at, non_ascii, helper)| DiagCase { tape, kind, at, non_ascii, helper }).boxed()
     }
     fn fixed_cases(&self, _tier: Tier, _f: &Findings) -> Vec<Self::Case> {
         let mut v = vec![];
         for k in 0..KINDS.len() as u8 {
             for na in [false, true] {
-                v.push(DiagCase { tape: vec![], kind: k, at: 40000, non_ascii: na });
-                v.push(DiagCase { tape: vec![30000; 60], kind: k, at: 65535, non_ascii: na });
+                v.push(DiagCase { tape: vec![], kind: k, at: 40000, non_ascii: na, helper: 0 });
+                v.push(DiagCase { tape: vec![30000; 60], kind: k, at: 65535, non_ascii: na, helper: 1 + (k % 2) });
+                v.push(DiagCase { tape: vec![30000; 60], kind: k, at: 65535, non_ascii: na, helper: 0 });
             }
         }
         v
@@ -123,13 +139,18 @@ impl Prop for DiagnosticRanges {
     fn judge(&self, c: &Self::Case, env: &mut Env) -> Verdict {
         let (src, inj_at) = build(c);
         let inj = &KINDS[c.kind as usize % KINDS.len()];
-        let r = match env.lsp(&single(src.clone()), "main.abra", false, vec![], false) {
+        let mut files = single(src.clone());
+        if let Some(h) = helper_text(c) {
+            files.push(SrcFile { path: "zz_helper.abra".into(), text: h.into() });
+        }
+        let r = match env.lsp(&files, "main.abra", false, vec![], false) {
             Exec::Ok(r) => r,
             Exec::Abort(f) => return Verdict::Fail(f.detail(json!({"src": src}))),
             Exec::Inconclusive(s) => return Verdict::Inconclusive(s),
         };
         let mut st = CaseStats::one();
         st.label(format!("inject:{}", c.kind as usize % KINDS.len()));
+        st.label(format!("imported-file:{}", ["none", "non-ascii", "short"][c.helper as usize % 3]));
         if let Some(p) = &r.analysis_panic {
             // crash-freedom of the analysis is C34's subject; report it here too, it hides the diagnostics
             return Verdict::Fail(Failure::new("HostPanic", norm_msg(&p.msg)).feat(format!("file:{}", base(&p.file))).detail(json!({"src": src, "panic": p})));
@@ -143,6 +164,7 @@ impl Prop for DiagnosticRanges {
             let text: &str = match d.file.as_str() {
                 "main.abra" => &src,
                 "prelude.abra" => abra_core::PRELUDE,
+                "zz_helper.abra" if helper_text(c).is_some() => helper_text(c).unwrap(),
                 other => return Verdict::Fail(feat(Failure::new("RangeInvalid", format!("diagnostic names a file that was not loaded: {other}")).detail(json!({"src": src, "diag": d})))),
             };
             let bad = if d.start > d.end {
